@@ -204,6 +204,12 @@ func canonObject(o types.Object) types.Object {
 
 func (p *Prog) computeAliases() {
 	objAlias = map[types.Object]types.Object{}
+	p.helperSite = map[*ast.FuncDecl]*ast.CallExpr{}
+	defer func() {
+		for _, m := range p.parents {
+			p.bridgeHelpers(m)
+		}
+	}()
 	g := p.CG()
 	for _, h := range p.NonTestFuncs() {
 		if h.Decl.Body == nil || baselineFuncs[h.Key] {
@@ -225,6 +231,9 @@ func (p *Prog) computeAliases() {
 			continue
 		}
 		site := sites[0]
+		if site.From.Pkg == h.Pkg && site.From != h {
+			p.helperSite[h.Decl] = site.Site
+		}
 		cinfo := site.From.Pkg.TypesInfo
 		hinfo := h.Pkg.TypesInfo
 		sig := h.Obj.Type().(*types.Signature)
